@@ -185,45 +185,53 @@ def check(ctx: Ctx) -> None:
                 ob.violation(fg, fg.node, f"the purity scan exempts more than local variable names and builtins ({bad or exempt})", construct=f"exemptions {bad or exempt}")
 
     with ctx.obligation("C06.b", "namespace") as ob:
-        locs = [x for x in repo.own_nodes(f_ex) if isinstance(x, (ast.Assign, ast.AnnAssign)) and (isinstance(x.value, ast.Dict)
-                or (isinstance(x.value, ast.Call) and unparse(x.value.func) == "dict" and not x.value.args))]
-        ob.require(len(locs) == 1, "executetask: namespace dict not found")
-        d = locs[0].value
-        if isinstance(d, ast.Call):
-            d = ast.Dict(keys=[ast.Constant(value=k.arg) for k in d.keywords], values=[k.value for k in d.keywords])
-        kv = {repo.fold_in(k, f_ex): unparse(v) for k, v in zip(d.keys, d.values)}
-        ob.site(f_ex, locs[0], "exec namespace", keys=sorted(map(str, kv)))
-        if kv.get("channel") != "channel":
-            ob.violation(f_ex, locs[0], "the exec namespace does not bind `channel` to the task's channel")
-        nm = [v for k, v in zip(d.keys, d.values) if repo.fold_in(k, f_ex) == "__name__"]
-        if not nm or repo.fold_in(nm[0], f_ex) != "__channelexec__":
-            ob.violation(f_ex, locs[0], "the exec namespace does not bind __name__ to '__channelexec__'")
-        lv = unparse(locs[0].targets[0] if isinstance(locs[0], ast.Assign) else locs[0].target)
-        unp = [x for x in repo.own_nodes(f_ex) if isinstance(x, ast.Assign) and isinstance(x.targets[0], ast.Tuple) and len(x.targets[0].elts) == 2
-               and isinstance(x.targets[0].elts[1], ast.Tuple) and len(x.targets[0].elts[1].elts) == 4]
-        un_call = unparse(unp[0].targets[0].elts[1].elts[2]) if unp else "call_name"
-        ex = [c for c in repo.calls_in(f_ex) if isinstance(c.func, ast.Name) and c.func.id == "exec"]
-        ob.require(len(ex) == 1, "exec(...) not found")
-        cvar = [unparse(x.targets[0]) for x in repo.own_nodes(f_ex) if isinstance(x, ast.Assign) and isinstance(x.value, ast.Call) and unparse(x.value.func) == "compile"]
-        if len(ex[0].args) != 2 or unparse(ex[0].args[1]) != lv or (unparse(ex[0].args[0]) not in cvar and not _x(repo, f_ex, ex[0].args[0]).startswith("compile(")):
-            ob.violation(f_ex, ex[0], "the compiled code is not executed in the fresh namespace (one dict as globals)")
-        from ..util import xtext as _x
-        want_fn = _x(repo, f_ex, ast.parse(f"{lv}[{un_call}]", mode="eval").body)
-        call = [c for c in repo.calls_in(f_ex) if _x(repo, f_ex, c.func) == want_fn]
-        fn = call
-        ok = len(call) == 1 and [unparse(a) for a in call[0].args] == ["channel"] and [(k.arg, unparse(k.value)) for k in call[0].keywords] == [(None, "kwargs")]
-        ob.site(f_ex, call[0] if call else f_ex.node, "the named function is called as f(channel, **kwargs)", ok=ok)
-        if not ok:
+        # on value terms: the task is item = (channel, (source, file_name, call_name, kwargs)); whatever locals carry the parts
+        from ..terms import const as _k, dict_entries as _entries, evaluator as _evb, tv as _tvb
+        ITEM = ("sym", f_ex.params()[1])
+        CH, T_ = ("idx", ITEM, _k(0)), ("idx", ITEM, _k(1))
+        SRC_, FILE_, CALL_, KW_ = (("idx", T_, _k(i_)) for i_ in range(4))
+        ev_b = _evb(repo, f_ex, Oracle(repo, f_ex, nonraising=NONRAISING))
+        ex_paths = list(ev_b.run(limit=40000))
+        n_exec = n_call = 0
+        bad_ns = bad_name = bad_exec = bad_call = bad_guard = False
+        for (_p, st_) in ex_paths:
+            for e in st_.events:
+                if e.kind == "call" and e.callee == "exec" and e.args:
+                    n_exec += 1
+                    if len(e.args) != 2:
+                        bad_exec = True
+                        continue
+                    ents = _entries(st_, e.args[1], e)
+                    if ents.get("channel") != CH:
+                        bad_ns = True
+                    if ents.get("__name__") != _k("__channelexec__"):
+                        bad_name = True
+                    mk = [x for x in st_.events if x.kind == "call" and x.result == e.args[0]]
+                    if not (mk and mk[0].callee == "compile"):
+                        bad_exec = True
+                    NS = e.args[1]
+                    known = dict(st_.cond)
+                    calls_f = [x for x in st_.events[st_.events.index(e):] if x.kind == "call" and x.recv is not None and x.recv[0] in ("idx", "dictget")
+                               and x.recv[1] == NS and x.attr is None]
+                    if _tvb(CALL_, known) is True:
+                        n_call += 1
+                        if not (len(calls_f) == 1 and calls_f[0].recv[2] == CALL_ and calls_f[0].args == (CH,) and calls_f[0].kwargs == {"**": KW_}):
+                            bad_call = True
+                    elif calls_f:
+                        bad_guard = True
+        ob.require(n_exec >= 1, "exec(...) not found")
+        ob.site(f_ex, f_ex.node, "exec namespace binds channel and __name__; the named function is called as f(channel, **kwargs)", exec_paths=n_exec, call_paths=n_call,
+                ok=not (bad_ns or bad_name or bad_exec or bad_call or bad_guard))
+        if bad_ns:
+            ob.violation(f_ex, f_ex.node, "the exec namespace does not bind `channel` to the task's channel")
+        if bad_name:
+            ob.violation(f_ex, f_ex.node, "the exec namespace does not bind __name__ to '__channelexec__'")
+        if bad_exec:
+            ob.violation(f_ex, f_ex.node, "the compiled code is not executed in the fresh namespace (one dict as globals)")
+        if bad_call or n_call == 0:
             ob.violation(f_ex, f_ex.node, "the remote function is not looked up by call_name in the namespace and called as f(channel, **kwargs)")
-        elif call:
-            cfg = build_cfg(repo, f_ex, Oracle(repo, f_ex, nonraising=NONRAISING))
-            for nd in cfg.node_containing(call[0]):
-                f = Facts(repo, f_ex, {})
-                for (t, lab) in cfg.guards(nd.id):
-                    if t.kind == "test":
-                        f.assume(t.ast, lab == "true")
-                if f.get("call_name") is not True:
-                    ob.violation(f_ex, call[0], "the function call is not conditioned on a call_name being given")
+        if bad_guard:
+            ob.violation(f_ex, f_ex.node, "the function call is not conditioned on a call_name being given")
 
     with ctx.obligation("C06.c", "payload-roles") as ob:
         from ..terms import NONE as _NONE2, const as _c
@@ -279,17 +287,20 @@ def check(ctx: Ctx) -> None:
         ob.site(f_re, f_re.node, "sender roles", paths=roles)
         if not all(roles.values()):
             ob.violation(f_re, f_re.node, "remote_exec does not send the 4-tuple (source, file_name, call_name, kwargs)", construct=f"roles {roles}")
-        un = [x for x in repo.own_nodes(f_ex) if isinstance(x, ast.Assign) and isinstance(x.targets[0], ast.Tuple) and unparse(x.value) == f_ex.params()[1]]
-        ok = len(un) == 1 and isinstance(un[0].targets[0].elts[1], ast.Tuple) and len(un[0].targets[0].elts[1].elts) == 4 and len(un[0].targets[0].elts) == 2
-        ob.site(f_ex, un[0] if un else f_ex.node, "executetask unpacks (channel, (source, file_name, call_name, kwargs))", ok=ok)
-        if not ok:
-            ob.violation(f_ex, f_ex.node, "executetask does not unpack the task as (channel, (source, file_name, call_name, kwargs))")
-        comp = [c for c in repo.calls_in(f_ex) if isinstance(c.func, ast.Name) and c.func.id == "compile"]
-        from ..util import xtext as _xt
-        un_names = [unparse(e) for e in un[0].targets[0].elts[1].elts] if un and isinstance(un[0].targets[0].elts[1], ast.Tuple) else ["source", "file_name", "call_name", "kwargs"]
-        ok = len(comp) == 1 and _xt(repo, f_ex, comp[0].args[0]).startswith(un_names[0]) and (_xt(repo, f_ex, comp[0].args[1]).startswith(f"{un_names[1]} or") or _xt(repo, f_ex, comp[0].args[1]).startswith(f"{un_names[1]} if {un_names[1]} else")) and repo.fold_in(comp[0].args[2], f_ex) == "exec"
-        ob.site(f_ex, comp[0] if comp else f_ex.node, "compile(source, file_name or ..., 'exec')", ok=ok)
-        if not ok:
+        ncomp = 0
+        okc = True
+        for (_p, st_) in ex_paths:
+            known = dict(st_.cond)
+            for e in st_.events:
+                if e.kind == "call" and e.callee == "compile":
+                    ncomp += 1
+                    a = e.args
+                    name_ok = len(a) >= 2 and (a[1] == ("or", FILE_, _k("<remote exec>")) or (a[1] == FILE_ and _tvb(FILE_, known) is True)
+                                               or (a[1] == _k("<remote exec>") and _tvb(FILE_, known) is False))
+                    if not (len(a) == 3 and a[0] == ("bin", "Add", SRC_, _k("\n")) and name_ok and a[2] == _k("exec")):
+                        okc = False
+        ob.site(f_ex, f_ex.node, "executetask reads the task as (channel, (source, file_name, call_name, kwargs)): compile(source + '\\n', file_name or ..., 'exec')", ok=okc and ncomp >= 1)
+        if not (okc and ncomp >= 1):
             ob.violation(f_ex, f_ex.node, "the source is not compiled under the transmitted file name (tracebacks would not name the original file)")
         # the code object that is executed is the one compiled from *this* request (a cache keyed by less than
         # (source, file name) would run code compiled under another request's file name)
@@ -305,10 +316,22 @@ def check(ctx: Ctx) -> None:
                                                    "another request's file name into the remote traceback", construct="exec of a code object not compiled here")
         ob.require(nexec >= 1, "executetask: exec(...) not found")
         fls = repo.func(f"{GB}.WorkerGateway._local_schedulexec")
-        sp = [c for c in repo.calls_in(fls) if callee_attr(c) == "spawn"]
-        ld = [c for c in repo.calls_in(fls) if callee_attr(c) == "loads_internal"]
-        ok = len(sp) == 1 and len(ld) == 1 and [unparse(a) for a in ld[0].args] == ["sourcetask"] and not ld[0].keywords and unparse(sp[0].args[0]) == "self.executetask" \
-            and isinstance(sp[0].args[1], ast.Tuple) and unparse(sp[0].args[1].elts[0]) == "channel" and unparse(sp[0].args[1].elts[1]) == unparse(repo.parent(ld[0]).targets[0])
+        chp, stp = [p_ for p_ in fls.params() if p_ != "self"][:2]
+        ev_s = _evb(repo, fls)
+        nsp = 0
+        ok = True
+        sp = []
+        for (_p, st_) in ev_s.run(limit=20000):
+            for e in st_.events:
+                if e.kind == "call" and e.attr == "spawn":
+                    nsp += 1
+                    sp.append(e.node)
+                    a = e.args
+                    dec = [x for x in st_.events if x.kind == "call" and len(a) == 2 and a[1][0] == "tuple" and len(a[1]) == 3 and x.result == a[1][2]]
+                    if not (len(a) == 2 and a[0] == ("sym", "self.executetask") and a[1][0] == "tuple" and len(a[1]) == 3 and a[1][1] == ("sym", chp)
+                            and dec and str(dec[0].callee or "").endswith("loads_internal") and dec[0].args == (("sym", stp),) and not dec[0].kwargs):
+                        ok = False
+        ok = ok and nsp >= 1
         ob.site(fls, sp[0] if sp else fls.node, "scheduler hands (channel, decoded payload) to executetask", ok=ok)
         if not ok:
             ob.violation(fls, fls.node, "_local_schedulexec does not spawn executetask((channel, loads_internal(sourcetask))): the request must be decoded with the "
